@@ -139,6 +139,7 @@ func summarise(ev []schema.VerifC19Event) hookSummary {
 	type parent struct {
 		n, closed int
 		eof       bool
+		done      map[int]bool // children that were closed or handed io.EOF
 	}
 	type stream struct{ closedRecv, eof bool }
 	parents := map[int]*parent{}
@@ -180,10 +181,15 @@ func summarise(ev []schema.VerifC19Event) hookSummary {
 				s.OtherMerges[shortOrigin(e.Origin)]++
 			}
 		case "child_new":
-			parents[e.ID] = &parent{n: e.N}
+			parents[e.ID] = &parent{n: e.N, done: map[int]bool{}}
 		case "child_close":
 			if p := parents[e.ID]; p != nil {
 				p.closed++
+				p.done[e.N] = true
+			}
+		case "child_end":
+			if p := parents[e.ID]; p != nil {
+				p.done[e.N] = true
 			}
 		case "child_eof":
 			if p := parents[e.ID]; p != nil {
@@ -211,6 +217,14 @@ func summarise(ev []schema.VerifC19Event) hookSummary {
 	for id, p := range parents {
 		if !p.eof && p.closed < p.n {
 			s.Undrained = append(s.Undrained, fmt.Sprintf("copy-parent#%d: %d of %d children closed, source not drained", id, p.closed, p.n))
+			continue
+		}
+		// every single copy is a stream the framework created: its reader closes it or reads it to its end
+		// (a copy nobody was given stays behind even when the other copies drain the source)
+		for i := 0; i < p.n; i++ {
+			if !p.done[i] {
+				s.Undrained = append(s.Undrained, fmt.Sprintf("copy-parent#%d: copy %d of %d neither closed nor read to its end", id, i, p.n))
+			}
 		}
 	}
 	for id, st := range streams {
@@ -365,9 +379,11 @@ func (engine) Run(ci any) lib.Result {
 		if out.class == "run_err" && abortKind(out.msg) == "other" {
 			// every abort exit the generator plans (a failing node, the step limit, END skipped, a branch that
 			// selects nothing) is recognised above; any other error means the engine could not carry a run
-			// through that the case gives it no reason to abandon (e.g. a stream left inside a checkpoint)
-			res.Oracle = "the run failed with an error that no planned abort exit of the case explains: " + out.msg
-			res.Sig = "unexpected-error"
+			// through that the case gives it no reason to abandon. The property speaks about completed runs
+			// only, so this is not a verdict of C19 (round 4: it was an oracle failure, sig unexpected-error,
+			// for one evening and fired on a defect of the checkpoint round trip, C05's subject): it goes to
+			// the distribution, with the class of the message, so that a change of the count is visible.
+			res.Tags = append(res.Tags, "abort:unplanned", "abort-unplanned:"+unplannedKind(out.msg))
 		}
 		e.releaseAll()
 		return res
@@ -408,6 +424,19 @@ func (engine) Run(ci any) lib.Result {
 	}
 	res.Nontrivial = len(e.producers) > 0 && (len(sum.Copies) > 0 || len(sum.CallbackCopies) > 0 || sum.Streams > len(e.producers))
 	return res
+}
+
+// unplannedKind classifies the message of a run error that no planned abort exit explains (distribution only).
+func unplannedKind(msg string) string {
+	switch {
+	case strings.Contains(msg, "chunk type mismatch"), strings.Contains(msg, "unsupported chunk type"):
+		return "restored-any-stream-at-fan-in"
+	case strings.Contains(msg, "failed to set checkpoint"):
+		return "set-checkpoint"
+	case strings.Contains(msg, "checkpoint"):
+		return "checkpoint"
+	}
+	return "other"
 }
 
 func abortKind(msg string) string {
